@@ -16,7 +16,28 @@ import (
 // Tree = harness AST. Oracle: Parse(In) succeeds and is DeepEqual to the tree built from the AST
 // through the public constructors.
 
+// c05Extras: value groups in every grouping (the OR-chain of plain values is a value list however
+// it is parenthesised) and leaves whose quoted / regexp text contains brackets.
+func c05Extras() []*qast.Node {
+	T := func(s string) *qast.Node { return qast.Lf(qast.Leaf{Kind: qast.LTerm, Val: qast.W(s)}) }
+	G := func(sub *qast.Node) *qast.Node { return qast.Lf(qast.Leaf{Kind: qast.LGroup, Field: "f", Sub: sub}) }
+	or := func(a, b *qast.Node) *qast.Node { return qast.Bin(qast.OOr, a, b) }
+	return []*qast.Node{
+		G(or(T("x"), or(T("y"), T("z")))),
+		G(or(or(T("x"), T("y")), T("z"))),
+		G(or(or(T("x"), T("y")), or(T("z"), T("u")))),
+		G(qast.Bin(qast.OAnd, T("x"), or(T("y"), T("z")))),
+		qast.Lf(qast.Leaf{Kind: qast.LEq, Field: "f", Val: qast.Q("(x")}),
+		qast.Lf(qast.Leaf{Kind: qast.LEq, Field: "f", Val: qast.Q(":)")}),
+		qast.Lf(qast.Leaf{Kind: qast.LEq, Field: "f", Val: qast.Q("[1 TO")}),
+		qast.Lf(qast.Leaf{Kind: qast.LEq, Field: "f", Val: qast.Re("/[(]x/")}),
+		qast.Lf(qast.Leaf{Kind: qast.LTerm, Val: qast.Q("a) OR (b")}),
+		qast.Lf(qast.Leaf{Kind: qast.LEq, Field: "f", Val: qast.I("010")}),
+	}
+}
+
 func init() {
+	treeSetsExtra["c05x0"] = c05Extras
 	core.Register(&core.Check{
 		ID:    "C05",
 		Title: "Operator precedence, associativity and grouping follow the documented table",
@@ -31,6 +52,7 @@ func init() {
 			add(qast.TreeUnits("tree|full|2|min", len(treeSet("full1")), 40), 3)
 			// variants on T(L_full,1) and T(L_small6,2)
 			add(qast.TreeUnits("tree|full|1|var", len(treeSet("full0")), 1), 1)
+			add(qast.TreeUnits("tree|c05x|1|var", len(treeSet("c05x0")), 1), 1)
 			add(qast.TreeUnits("tree|small6|2|var", len(treeSet("small1")), 8), 2)
 			if tier == "thorough" {
 				add(qast.TreeUnits("tree|three|3|min", len(treeSet("three2")), 120), 5)
@@ -89,6 +111,8 @@ func treeUnitSets(unit string) (leaves, sub []*qast.Node) {
 		return treeSet("full0"), treeSet("full0")
 	case "c11x|1":
 		return treeSet("c11x0"), treeSet("c11x0")
+	case "c05x|1":
+		return treeSet("c05x0"), treeSet("c05x0")
 	case "small6|2":
 		return qast.LeavesSmall(6), treeSet("small1")
 	case "three|3":
